@@ -31,7 +31,7 @@ def _judge(run):
 
 P = ScenarioProperty(
     PROP,
-    {"levels": (2, 3), "hibernation": 0.7, "level_limit_max": 3, "cap": (7, 12), "gsc_kinds": ["MetaepochLimit", "MetaepochLimit", "SingularProblemEvalLimitReached", "SingularProblemEvalLimitReached", "FitnessEvalLimitReached", "AllStopped", "NoActiveNonrootDemes"]},
+    {"levels": (2, 3), "hibernation": 0.7, "level_limit_max": 3, "cap": (8, 12), "sprouty": True, "root_lsc_kinds": ["DontStop", "DontStop", "DontStop", "MetaepochLimit", "AllChildrenStopped"], "gsc_kinds": ["MetaepochLimit", "MetaepochLimit", "SingularProblemEvalLimitReached", "SingularProblemEvalLimitReached", "FitnessEvalLimitReached", "AllStopped", "NoActiveNonrootDemes"]},
     lambda sc: [C18Checker(sc)],
     _judge,
     quick=3200,
